@@ -34,8 +34,12 @@ func c08Slice(d0 *Defs, steps0 []c08Step, doc0 JV, keepRequired bool) (*Defs, JV
 	var final *Src
 	var walk func(ty *Src, node *JV, i int, skip string) bool
 	walk = func(ty *Src, node *JV, i int, skip string) bool {
-		for guard := 0; ty != nil && ty.Kind == SRef && guard < 100; guard++ {
-			ty = d.lookup(ty.Ref)
+		for guard := 0; ty != nil && (ty.Kind == SRef || ty.Kind == SNullable) && guard < 100; guard++ {
+			if ty.Kind == SNullable {
+				ty = ty.Elem
+			} else {
+				ty = d.lookup(ty.Ref)
+			}
 		}
 		if ty == nil {
 			return false
@@ -217,7 +221,7 @@ func c08StructNodes(d *Defs) []*Src {
 			for i := range s.Fields {
 				walk(s.Fields[i].Ty)
 			}
-		case SArray, SDict:
+		case SArray, SDict, SNullable:
 			walk(s.Elem)
 		case SOneOfScalars:
 			for _, a := range s.Alts {
@@ -242,6 +246,10 @@ func c08PruneDocKeeping(d *Defs, ty *Src, node *JV, depth int, keepPrefix string
 	}
 	ty = d.resolve(ty)
 	if ty == nil {
+		return
+	}
+	if inner, ok := ty.unwrap(); ok {
+		c08PruneDocKeeping(d, inner, node, depth+1, keepPrefix)
 		return
 	}
 	switch ty.Kind {
